@@ -306,7 +306,12 @@ func websocketClient(ctx context.Context, addr string, namespace string, outs []
 
 	var hnd reqestHandler
 	if len(config.reverseHandlers) > 0 {
-		h := makeHandler(defaultServerConfig())
+		// the client's handlers are named by the client's formatter, as its calls are:
+		// a server sharing that formatter then reaches them by the names its reverse
+		// client produces
+		sc := defaultServerConfig()
+		sc.methodNameFormatter = config.methodNamer
+		h := makeHandler(sc)
 		h.aliasedMethods = config.aliasedHandlerMethods
 		for _, reverseHandler := range config.reverseHandlers {
 			h.register(reverseHandler.ns, reverseHandler.hnd)
